@@ -71,6 +71,9 @@ def harness_list(tier):
         ((1, 0, 0, 0, 0, 0, 1, 1), 2),  # (c) T, p, x -> new_npt with the reference amount
         ((1, 1, 0, 0, 0, 0, 0, 1), 1),  # (c) T, p, V -> new_npvx
         ((1, 0, 0, 0, 0, 0, 0, 0), 1),  # T alone: no state
+        # priority between routes that both apply (the non-iterative constructor first)
+        ((1, 1, 0, 0, 1, 0, 0, 1), 1),  # (c) T, V, N and p -> new_nvt, not new_npt / new_npvx
+        ((1, 0, 1, 0, 0, 0, 1, 1), 2),  # (c) T, rho, x and p -> new_nvt (reference amount)
     ]
     for b, nc in QUICK:
         hs.append({"name": hname(b, nc), "bits": b, "ncomp": nc, "budget_s": 120, "clause": "C03.3", "bounded": f"n = {nc}"})
